@@ -201,7 +201,14 @@ class World:
             if op == "source":
                 return self._who(o.source, r"SRC(\d)")
             if op == "code":
-                return self._who(o.code, r"SRC(\d)")
+                c = o.code
+                from mako.template import ModuleInfo
+                # (the ground truth applies when the registry answers with this object's own ModuleInfo; whose module comes
+                # back otherwise is what the model predicts)
+                own = ModuleInfo._modules.get(o.module.__name__) is getattr(o, "_mmarker", None)
+                if own and _code_truth(o, c, getattr(o.module, "__file__", None) if os.path.isfile(getattr(o.module, "__file__", None) or "") else None, []) != "ok":
+                    return "not-the-generated-module"
+                return self._who(c, r"SRC(\d)")
             if op == "defs":
                 ld = [x for x in o.list_defs() if x != "body"]
                 if len(ld) != 1 or not o.has_def(ld[0]) or o.has_def("nonexistent"):
@@ -498,6 +505,37 @@ def _d(v):
     return "type:" + type(v).__name__
 
 
+def _code_truth(t, code, mfile, defnames):
+    """Compare Template.code with its ground truth; returns "ok" or what is wrong."""
+    import tokenize
+    if mfile:
+        with open(mfile, "rb") as f:
+            enc = tokenize.detect_encoding(f.readline)[0]
+        with open(mfile, "rb") as f:
+            want = f.read().decode(enc)
+        if code != want:
+            return "not-the-module-file-text"
+    else:
+        ns = {}
+        try:
+            exec(compile(code, "<code>", "exec"), ns)
+        except Exception as ex:  # noqa
+            return "module-source-fails-" + type(ex).__name__
+        live = sorted(k for k in vars(t.module) if k.startswith("render_"))
+        if sorted(k for k in ns if k.startswith("render_")) != live:
+            return "module-source-defines-other-callables"
+        for k in ("_template_uri", "_source_encoding", "_magic_number", "_enable_loop", "_template_filename", "_modified_time"):
+            if ns.get(k, "?") != getattr(t.module, k, "?"):
+                return "module-source-differs-in-" + k.strip("_")
+    for name in defnames[:1]:
+        try:
+            if t.get_def(name).code != code:
+                return "get_def-code-differs"
+        except Exception as ex:  # noqa
+            return "get_def-code-" + type(ex).__name__
+    return "ok"
+
+
 def realise(tpl, d, seed, first):
     """All paths for one template inside this process.  Returns the event list (object ids local)."""
     import contextlib
@@ -579,7 +617,17 @@ def realise(tpl, d, seed, first):
             r = _try(lambda: lookup.get_template("kid.html").render(**RCTX))
             ev.append({"ev": "render", "t": n, "m": "render", "key": K("kid|typed", sp), "dig": _d(r), "seed": seed, "path": path})
         s = _try(lambda: t.source)
-        ev.append({"ev": "source", "t": n, "dig": _d(s), "seed": seed, "path": path})
+        # ground truth of .source for this path: the text given (string templates) or the content of the template file
+        sback = "file" if getattr(t, "filename", None) and "string" not in path else "given"
+        struth = "ok"
+        if isinstance(s, str) and not s.startswith("exc:"):
+            if sback == "file":
+                with open(t.filename, "rb") as f:
+                    want = f.read().decode(tpl["encoding"])
+            else:
+                want = text
+            struth = "ok" if s == want else "not-the-%s-text" % sback
+        ev.append({"ev": "source", "t": n, "dig": _d(s), "backing": sback, "truth": struth, "seed": seed, "path": path})
         c = _try(lambda: t.code)
         if isinstance(c, str) and not c.startswith("exc:"):
             # whose module it is: the template's marker text is in it (degenerate templates carry none: a trace has one source)
@@ -593,7 +641,14 @@ def realise(tpl, d, seed, first):
         else:
             owner, cls = (c if isinstance(c, str) else "type:" + type(c).__name__), "none"
             owner = "KeyError" if owner == "exc:KeyError" else owner
-        ev.append({"ev": "code", "t": n, "owner": owner, "cls": cls, "seed": seed, "path": path})
+        # ground truth of .code for THIS path: the text of the module file when the module lives in one (as Python reads
+        # it, PEP 263), else a module source that defines what the live module defines
+        mfile = getattr(t.module, "__file__", None)
+        backing = "modfile" if mfile and os.path.isfile(mfile) else "memory"
+        truth = "ok"
+        if isinstance(c, str) and not c.startswith("exc:") and cls == "ok":
+            truth = _code_truth(t, c, mfile if backing == "modfile" else None, [x[0] for x in tpl["defs"]])
+        ev.append({"ev": "code", "t": n, "owner": owner, "cls": cls, "backing": backing, "truth": truth, "seed": seed, "path": path})
         if light:
             return
         names = [x[0] for x in tpl["defs"]]
